@@ -195,15 +195,10 @@ class PointTier(textgrid_tier.TextgridTier):
             newEntries.append(Point(newTimestamp, label))
 
         # Determine new min and max timestamps
+        # (the old span is always included, so this also works if no entries remain)
         timeList = [float(point.time) for point in newEntries]
-        newMin = min(timeList)
-        newMax = max(timeList)
-
-        if newMin > self.minTimestamp:
-            newMin = self.minTimestamp
-
-        if newMax < self.maxTimestamp:
-            newMax = self.maxTimestamp
+        newMin = min([self.minTimestamp] + timeList)
+        newMax = max([self.maxTimestamp] + timeList)
 
         return PointTier(self.name, newEntries, newMin, newMax)
 
